@@ -812,13 +812,19 @@ fn run_subs_case(n: usize, target: usize, droppable: bool) -> Option<(String, St
     for i in 0..n {
         let un = got.iter().filter(|e| **e == Ev::Unsub(i)).count();
         if un != 1 {
-            return Some((if i == target { "O-C09-k-unsub-releases-once" } else { "O-C09-clear-releases-each-once" }.into(), format!("subscriber {} released exactly once", i), format!("{} times", un)));
+            return Some((if i == target { "O-C09-unsubscribe-releases-target-once" } else { "O-C09-clear-releases-each-once" }.into(), format!("subscriber {} released exactly once", i), format!("{} times", un)));
         }
         let notes = got.iter().filter(|e| matches!(e, Ev::Notify(j, _, _) if *j == i)).count();
         let exp = if i == target { 1 } else { 2 };
         if notes != exp {
-            return Some((if i == target { "O-C09-k-unsub-removes-target" } else { "O-C09-k-unsub-keeps-others" }.into(), format!("subscriber {} notified {} times", i, exp), format!("{} times", notes)));
+            return Some(("O-C09-unsubscribe-removes-exactly-target".into(), format!("subscriber {} notified {} times", i, exp), format!("{} times", notes)));
         }
+    }
+    // C03 / C09: the remaining subscribers are still called in registration order for the second action
+    let second: Vec<usize> = got.iter().filter_map(|e| match e { Ev::Notify(j, _, a) if *a == 2 => Some(*j), _ => None }).collect();
+    let exp_second: Vec<usize> = (0..n).filter(|i| *i != target).collect();
+    if second != exp_second {
+        return Some(("O-C09-unsubscribe-removes-exactly-target".into(), format!("action 2 notifies subscribers {:?} (registration order, target removed)", exp_second), format!("{:?}", second)));
     }
     if store.dispatch(3).is_ok() {
         return Some((if droppable { "O-C15-drop-is-stop" } else { "O-C04-stop-final" }.into(), "dispatch after shutdown returns Err".into(), "Ok".into()));
@@ -829,7 +835,7 @@ fn run_subs_case(n: usize, target: usize, droppable: bool) -> Option<(String, St
     None
 }
 fn suite_subs() -> Option<String> {
-    for n in 1..=3usize {
+    for n in 1..=4usize {
         for target in 0..=n {
             for droppable in [false, true] {
                 if let Some((ob, exp, got)) = run_subs_case(n, target, droppable) {
